@@ -24,6 +24,9 @@ type chunkConn struct {
 	pos     int
 	cuts    []int
 	oneByte bool
+	// eofWithData: the Read that delivers the last bytes of the stream
+	// returns them together with io.EOF (an io.Reader may do that)
+	eofWithData bool
 }
 
 func (c *chunkConn) Read(p []byte) (int, error) {
@@ -44,6 +47,9 @@ func (c *chunkConn) Read(p []byte) (int, error) {
 	}
 	copy(p, c.data[c.pos:c.pos+n])
 	c.pos += n
+	if c.eofWithData && c.pos == len(c.data) {
+		return n, io.EOF
+	}
 	return n, nil
 }
 func (c *chunkConn) Write(p []byte) (int, error)        { return len(p), nil }
@@ -144,7 +150,8 @@ type c03Case struct {
 	frames []c03Frame
 	cuts   []int
 	one    bool
-	endAt  int // >= 0: the stream ends after this many bytes of the last frame
+	endAt  int  // >= 0: the stream ends after this many bytes of the last frame
+	eofDat bool // the last bytes arrive together with io.EOF
 }
 
 // c03Run executes one case and returns a violation, if any.
@@ -157,7 +164,7 @@ func c03Run(cs c03Case, viaSet bool) (cls, sig, text string) {
 		last := cs.frames[len(cs.frames)-1]
 		stream = stream[:len(stream)-len(last.Bytes)+cs.endAt]
 	}
-	conn := &chunkConn{data: stream, cuts: cs.cuts, oneByte: cs.one}
+	conn := &chunkConn{data: stream, cuts: cs.cuts, oneByte: cs.one, eofWithData: cs.eofDat}
 	var ch p9p.Channel
 	if viaSet {
 		ch = p9p.NewChannel(conn, p9p.DefaultMSize)
@@ -170,7 +177,7 @@ func c03Run(cs c03Case, viaSet bool) (cls, sig, text string) {
 		for _, f := range cs.frames {
 			names = append(names, f.Name)
 		}
-		return fmt.Sprintf("msize %d, frames %q, frame %d, cuts %v onebyte=%v end=%d", cs.m, names, i, cs.cuts, cs.one, cs.endAt)
+		return fmt.Sprintf("msize %d, frames %q, frame %d, cuts %v onebyte=%v end=%d eof-with-data=%v", cs.m, names, i, cs.cuts, cs.one, cs.endAt, cs.eofDat)
 	}
 	cls = ""
 	for i, f := range cs.frames {
@@ -257,7 +264,7 @@ func c03Run(cs c03Case, viaSet bool) (cls, sig, text string) {
 func c03(c *core.Ctx) {
 	c.SetLevel("model_checking")
 	c.Budget(80*time.Second, 12*time.Minute)
-	c.SetRule("histories of 1-2 (quick) / 1-3 (thorough) frames over an alphabet of valid frames of every kind, Treads whose count exceeds msize-11, frames oversize by k, unknown types, bodies cut at every length, length prefixes 0-3; msize in {24,32,64,256} (and, for the class representatives delivered at once and in 1000-byte chunks, {4096,4097,8192,65536}); byte stream delivered all at once, one byte per Read, and with every placement of 1 (quick) / 2 (thorough) cuts for class representatives; stream ending after every byte of the last frame. Each ReadFcall is compared with a reference frame parser whose verdict depends on the frame's bytes and msize only (so frame isolation is part of the oracle). outcome = per-history string of verdict classes")
+	c.SetRule("histories of 1-2 (quick) / 1-3 (thorough) frames over an alphabet of valid frames of every kind, Treads whose count exceeds msize-11, frames oversize by k, unknown types, bodies cut at every length, length prefixes 0-3; msize in {24,32,64,256} (and, for the class representatives delivered at once and in 1000-byte chunks, {4096,4097,8192,65536}); byte stream delivered all at once (also with the last bytes arriving together with io.EOF), one byte per Read, and with every placement of 1 (quick) / 2 (thorough) cuts for class representatives; stream ending after every byte of the last frame. Each ReadFcall is compared with a reference frame parser whose verdict depends on the frame's bytes and msize only (so frame isolation is part of the oracle). outcome = per-history string of verdict classes")
 	c.Assume("reference parser + refcodec are the specification", "after a length prefix below 4 nothing further is asserted about the stream")
 	msizes := []int{24, 32, 64, 256}
 	var mu sync.Mutex
@@ -345,7 +352,7 @@ func c03(c *core.Ctx) {
 			d = 2
 		}
 		rec(nil, a, d, func(h []c03Frame) {
-			cases = append(cases, c03Case{m: m, frames: h, endAt: -1}, c03Case{m: m, frames: h, one: true, endAt: -1})
+			cases = append(cases, c03Case{m: m, frames: h, endAt: -1}, c03Case{m: m, frames: h, one: true, endAt: -1}, c03Case{m: m, frames: h, endAt: -1, eofDat: true})
 		})
 		// stream ending after every byte of the last frame
 		rec(nil, reps, 2, func(h []c03Frame) {
